@@ -291,6 +291,10 @@ func (sc *Scenario) Body(dir string, x *Exec, probe *Probe, raw *RawWriter) func
 			calls = append(calls, call)
 		}
 		x.Err = e.Run(context.Background(), calls...)
+		// what is still to come after this point happens after the invocation has returned
+		probe.mu.Lock()
+		probe.Trace = append(probe.Trace, Event{'R', "Run returned", 0})
+		probe.mu.Unlock()
 	}
 }
 
